@@ -187,6 +187,18 @@ next {1.0 / z}
 * [go] done {z}
   -> END
 """,
+    "fn-blank-line": """-> start
+=== start
+A {f()} B
+second {f()}
+-> END
+=== function f()
+line1
+{" "}
+line3
+{" "}
+~ return 1
+""",
     "tags": """-> t
 === t
 # knot tag
@@ -442,6 +454,9 @@ def classify(prog, hist, b, before_dump, first):
         return "load-of-own-save-fails"
     if re.search(r"f:80000000|-0\b|-inf", json.dumps(first)) and re.search(r"f:00000000|\binf\b|\b0\b", json.dumps(first)):
         return "negative-zero-global-not-saved"
+    if re.search(r'"type":1', dump) and first.get("where") in ("continue", "end-state") \
+            and (first.get("original", "").startswith('ok("\\u{a}")') or '"\\u{a}"' in first.get("original", "")):
+        return "function-start-trim-rearmed-after-load"
     if re.search(r"f:[7f]f7fc99e", dump + json.dumps(first)) or re.search(r"\binf\b", json.dumps(first)):
         return "non-finite-float-not-representable"
     if multi:
@@ -558,7 +573,7 @@ def correspondence(ctx, exe, hists, nmax):
             script += [["SAVE", "k"], ["LOADNEW", "k"], ["SHOWSAVE"]]
         script += [["SAVE", "z"], ["LOAD", "z"]]
         cases.append(base_case(h["prog"], f"c{i}:{h['prog']['id']}", script, explore={"depth": 1, "max_paths": 4}))
-    res = engine_save.compare(cases, exe=exe)
+    res = engine_save.compare(cases, exe=exe, shard=5)
     stat = {}
     mism = []
     for c, r in zip(cases, res):
